@@ -228,23 +228,99 @@ func ruleR12_3(c *Check) {
 			continue
 		}
 		l0sites++
-		r.Check(w.isCallTo(s.(ast.Expr), w.Func("badger.appendIteratorsReversed")), ni, "L0 inputs newest first", s, "level-0 inputs are not added through appendIteratorsReversed")
+		r.Check(descendingIterSite(w, ni, s, 2), ni, "L0 inputs newest first", s, "level-0 inputs are not added from the last table to the first")
 	}
 	r.Exists(l0sites >= 1, ni, "level-0 branch adds its inputs", nil, "no iterator site under `lev == 0`")
-	ar := w.F("badger.appendIteratorsReversed")
-	okv := false
-	ar.walk(func(n ast.Node) bool {
-		if fs, ok := n.(*ast.ForStmt); ok {
-			if inc, ok := fs.Post.(*ast.IncDecStmt); ok && inc.Tok == token.DEC {
-				okv = true
+	// levelHandler.appendIterators: under level == 0 every table iterator is added newest first
+	ai := w.F("badger.levelHandler.appendIterators")
+	lvl := w.Field("badger.levelHandler.level")
+	n0 := 0
+	var k keyer
+	ai.walkInl(func(own *Fn, n ast.Node) bool {
+		call, ok := n.(*ast.CallExpr)
+		if !ok || !addsTableIterators(w, own, call, 2) {
+			return true
+		}
+		op, g := w.guardRel(w.Guards(own, call), w.isField(lvl), w.isConst(0), false)
+		if g == nil || op != token.EQL {
+			return true
+		}
+		n0++
+		r.Check(descendingIterSite(w, own, call, 2), own, k.key("read path appends L0 newest first", w, call), call, "level-0 table iterators are appended in table order (oldest first): an older copy of an identical key+version wins the merge")
+		return true
+	})
+	r.Exists(n0 >= 1, ai, "read path has a level-0 branch that adds table iterators", nil, "no table iterator is added under `level == 0` in levelHandler.appendIterators")
+}
+
+// addsTableIterators: the call creates table iterators — Table.NewIterator itself, or a module
+// function that contains such a call (depth levels deep).
+func addsTableIterators(w *World, own *Fn, call *ast.CallExpr, depth int) bool {
+	ni := w.Func("table.Table.NewIterator")
+	if o := w.Callee(call); o != nil && (o == types.Object(ni) || (o.Name() == "NewIterator" && o.Pkg() != nil && o.Pkg().Path() == modPath+"/table")) {
+		return true
+	}
+	if depth <= 0 {
+		return false
+	}
+	callee := w.calleeFn(own, call)
+	if callee == nil || callee.Body == nil || callee.Decl == nil {
+		return false
+	}
+	found := false
+	callee.walkDeep(func(g *Fn, n ast.Node) bool {
+		if c, ok := n.(*ast.CallExpr); ok && !found && c != call && addsTableIterators(w, g, c, depth-1) {
+			found = true
+		}
+		return !found
+	})
+	return found
+}
+
+// descendingIterSite: the table iterators this call creates are created from the last table to the
+// first: the call sits in a counting-down loop, or it calls a function all of whose
+// iterator-creating calls do.
+func descendingIterSite(w *World, own *Fn, n ast.Node, depth int) bool {
+	call, ok := n.(*ast.CallExpr)
+	if !ok {
+		return false
+	}
+	inDownLoop := func(x ast.Node) bool {
+		for p := w.parentOf(x); p != nil; p = w.parentOf(p) {
+			switch fs := p.(type) {
+			case *ast.ForStmt:
+				if inc, ok := fs.Post.(*ast.IncDecStmt); ok && inc.Tok == token.DEC {
+					return true
+				}
+				return false
+			case *ast.RangeStmt:
+				return false
+			case *ast.FuncLit, *ast.FuncDecl:
+				return false
+			}
+		}
+		return false
+	}
+	if o := w.Callee(call); o != nil && o.Name() == "NewIterator" && o.Pkg() != nil && o.Pkg().Path() == modPath+"/table" {
+		return inDownLoop(call)
+	}
+	if depth <= 0 {
+		return false
+	}
+	callee := w.calleeFn(own, call)
+	if callee == nil || callee.Body == nil || callee.Decl == nil {
+		return false
+	}
+	all, any := true, false
+	callee.walkDeep(func(g *Fn, m ast.Node) bool {
+		if c, ok := m.(*ast.CallExpr); ok && addsTableIterators(w, g, c, 0) {
+			any = true
+			if !inDownLoop(c) {
+				all = false
 			}
 		}
 		return true
 	})
-	r.Check(okv, ar, "appendIteratorsReversed counts down", nil, "loop does not walk from the last table to the first")
-	// levelHandler.appendIterators: L0 through the reversed append
-	ai := w.F("badger.levelHandler.appendIterators")
-	r.Exists(len(ai.Sites(selCallName(w, "badger.appendIteratorsReversed"))) == 1, ai, "read path appends L0 newest first", nil, "levelHandler.appendIterators no longer uses appendIteratorsReversed for L0")
+	return any && all
 }
 
 func ruleR12_4(c *Check) {
@@ -292,6 +368,7 @@ func propC12(c *Check) {
 	ruleR12_3(c)
 	ruleR12_4(c)
 	ruleR12_5(c)
+	ruleR12_6(c)
 	ruleR13_1(c)
 	ruleR13_3(c)
 	ruleR08_1(c)
@@ -948,6 +1025,7 @@ func ruleR14_6(c *Check) {
 
 func propC14(c *Check) {
 	ruleR14_6(c)
+	ruleR12_6(c)
 	ruleR14_1(c)
 	ruleR14_2(c)
 	ruleR14_3(c)
